@@ -13,7 +13,12 @@ Tie:
 Oracle (from the property statement): nothing escapes `process_events`; the processing stays within the budget B(program);
 an injected error produces a `ColangError` event; observer flows (own interaction loops, unrelated to the faulty flow) emit
 their marker for EVERY external event, including the one during which the error happens and the next one; every real `slide`
-call on an acyclic flow makes at most |elements|+1 iterations (T1 on the implementation).
+call on an acyclic flow makes at most |elements|+1 iterations (T1 on the implementation);
+"fails only that flow": every flow INSTANCE in which a statement raised (slide or matching phase) is STOPPED, has no head left and
+its FlowFailed event was processed by the end of the same `process_events` call; "is reported as a ColangError event": per call at
+least as many ColangError events are processed as errors were raised.
+Histories: the error may appear only in the K-th instance of the activated flow (global instance counter), the walk to the error
+may be repeated after it (the same events again), observers may precede the faulty flow and may react through a sub-flow.
 """
 import asyncio
 import contextlib
@@ -32,7 +37,13 @@ RULE = ("program = faulty flow (3-7 statements from: assignment, action send, ma
         "variable, wrong type, invalid regex, bad send argument, bad if condition, and raised-while-matching: comparison type "
         "mismatch / invalid regex / bad expression in match arguments), started as @active (activated), by a raw StartFlow, or by an "
         "activated launcher; plus one @active observer flow per external event name in its own interaction loop; plus activated "
-        "flows that finish/fail immediately; plus all shipped library flows (checker only). non-trivial = the erroneous statement was "
+        "flows that finish/fail immediately; plus all shipped library flows (checker only). Further error kinds: division by zero, index "
+        "out of range, priority out of range, return/log expression, unknown event of a flow/action reference (AssertionError / "
+        "ColangSyntaxError, i.e. not a Colang exception class), errors raised while a pattern-failure handler is installed (when-pattern "
+        "with action/flow arguments; match in when/or-when/else), two errors in one candidate scan. Every program also with a longer "
+        "history: error only in the K-th (2nd/3rd) instance of the activated flow, the walk to the error repeated after it, observers "
+        "ahead of the faulty flow or reacting through a sub-flow; loops with break/continue; start by a complete raw StartFlow. "
+        "non-trivial = the erroneous statement was "
         "reached (an exception was raised inside the interpreter) or the case is an immediate finish/fail of an activated flow.")
 TRUSTED_BASE = [
     "translator harness/translate/c10.py (element classification table; AST check of slide()'s dispatch)",
@@ -56,7 +67,8 @@ MATCH_SAMPLE_CAP = 12
 ROUND_REPLAY_CAP = 10
 
 MATCH_KINDS = ("match-cmp", "match-regex", "match-expr", "match-and-first", "match-and-second", "match-or-first", "match-or-second",
-               "match-when-sibling", "match-child", "match-child-await", "match-grandchild", "match-when-else", "match-when-or-else")
+               "match-when-sibling", "match-child", "match-child-await", "match-grandchild", "match-when-else", "match-when-or-else",
+               "match-and-both", "match-child-both")
 ERR_STMT = {
     "bad-expr": ['$e = "t" + 3'],
     "unknown-var": ["$e = $nope + 1"],
@@ -94,6 +106,9 @@ ERR_STMT = {
     # ... or while matching, with an `else` branch the flow could (wrongly) continue in
     "match-when-else": ["when M(x=$nope.value)", "  $e = 1", "else", "  $e = 2"],
     "match-when-or-else": ["when M(x=less_than(3))", "  $e = 1", "or when NeverD()", "  $e = 2", "else", "  $e = 3"],
+    # TWO errors in one candidate scan (two heads of the faulty flow / the faulty flow and a child flow): one report each
+    "match-and-both": ["match M(x=$nope.value) and M(x=less_than(3))"],
+    "match-child-both": ["start helper_e", "match M(x=$nope.value)"],
 }
 ERR_FLOWS = {
     "match-child": ["flow helper_m", "  match M()", "  match NeverH()", ""],
@@ -102,6 +117,7 @@ ERR_FLOWS = {
     "ref-bad-event-match": ["flow helper_h", "  match NeverHH()", ""],
     "ref-bad-event-send": ["flow helper_h", "  match NeverHH()", ""],
     "when-flow-bad-arg": ["flow helper_w $p", "  match NeverHW()", ""],
+    "match-child-both": ["flow helper_e", '  match M(x=regex("("))', "  match NeverH()", ""],
 }
 M_EVENT = {"type": "M", "x": "str"}
 
@@ -110,7 +126,7 @@ M_EVENT = {"type": "M", "x": "str"}
 
 def stmt_pool(rng, i):
     """-> (lines, events needed to pass the statement, waits?)"""
-    k = rng.choice(["assign", "assign", "send", "match", "match", "matchx", "ifelse", "while", "when", "await", "log", "action"])
+    k = rng.choice(["assign", "assign", "send", "match", "match", "matchx", "ifelse", "while", "when", "await", "log", "action", "whilebreak", "whilecontinue"])
     if k == "assign":
         return [f"$v{i} = {i} + 1"], [], False, k
     if k == "send":
@@ -123,6 +139,11 @@ def stmt_pool(rng, i):
         return [f"if $v{i} == 1", f"  $w{i} = 1", "else", f"  $w{i} = 2"], [], False, k
     if k == "while":
         return [f"$i{i} = 0", f"while $i{i} < 2", f"  match W{i}()", f"  $i{i} = $i{i} + 1"], [{"type": f"W{i}"}, {"type": f"W{i}"}], True, k
+    if k == "whilebreak":
+        return [f"$i{i} = 0", "while True", f"  match W{i}()", f"  $i{i} = $i{i} + 1", f"  if $i{i} >= 2", "    break"], [{"type": f"W{i}"}, {"type": f"W{i}"}], True, k
+    if k == "whilecontinue":
+        return [f"$i{i} = 0", f"while $i{i} < 2", f"  match W{i}()", f"  $i{i} = $i{i} + 1", f"  if $i{i} < 9", "    continue", f"  $u{i} = 1"], \
+            [{"type": f"W{i}"}, {"type": f"W{i}"}], True, k
     if k == "when":
         return [f"when C{i}()", f"  $w{i} = 1", f"or when D{i}()", f"  $w{i} = 2"], [{"type": f"C{i}"}], True, k
     if k == "await":
@@ -216,7 +237,9 @@ def build_program(stmts, inject_at, kind, mode, nested, opts=None):
         src += ["@active", "flow launcher", "  activate faulty", "  match NeverL()", ""]
     src.append("flow main")
     if mode == "raw":
-        src.append('  send StartFlow(flow_id="faulty")')
+        src.append('  send StartFlow(flow_id="faulty")')  # incomplete internal event: the faulty flow is never started
+    elif mode == "raw-uid":
+        src.append('  send StartFlow(flow_id="faulty", flow_instance_uid="faulty_instance_1")')  # started, not activated, nobody awaits it
     src.append("  match Never()")
     meta = {"mode": mode, "kind": kind, "phase": "match" if kind in MATCH_KINDS else "slide", "waits_before": waits_before,
             "inject_at": inject_at, "nested": nested, "expect_error": True}
@@ -292,7 +315,7 @@ def cascade_case(body, kid, name, extra_peer):
 
 
 def gen_cases(rng, tier):
-    n_prog = 36 if tier == "quick" else 420
+    n_prog = 40 if tier == "quick" else 420
     cases = [{"kind": "lib"}]
     for body, name in QUICK_BODIES:
         cases.append(quick_case(body, name, False))
@@ -304,7 +327,9 @@ def gen_cases(rng, tier):
     for p in range(n_prog):
         n = rng.randrange(3, 8)
         stmts = [stmt_pool(rng, i) for i in range(n)]
-        mode = rng.choice(["active", "active", "raw", "launcher"])
+        mode = rng.choice(["active", "active", "raw-uid", "launcher"])
+        if mode == "raw-uid" and rng.random() < 0.2:
+            mode = "raw"
         if mode == "launcher" and not stmts[0][2]:
             stmts[0] = ([f"match A0()"], [{"type": "A0"}], True, "match")
         # every position; the kinds rotate so that every (position, kind) pair is hit across programs (thorough: all kinds per position)
@@ -459,6 +484,7 @@ def install():
                 st["colang_errors"] += 1
             elif event.name == "FlowFailed":
                 st["failed_uids"].append(event.arguments.get("source_flow_instance_uid"))
+                st["failed_flows"].append(str(event.arguments.get("flow_id")))
         rnd = _R.round
         if rnd is None:
             return O["pie"](state, event)
@@ -631,7 +657,7 @@ def run_impl(case):
     signal.signal(signal.SIGVTALRM, _vt_alarm)
     for ev in case["events"]:
         st = {"slides": 0, "moves": 0, "ievents": 0, "colang_errors": 0, "rtc_exc": [], "samples": [], "scans": [], "scan": None,
-              "over_bound": [], "max_iter_ratio": 0.0, "budget": 10 ** 9, "rounds": [], "errs": [], "failed_uids": []}
+              "over_bound": [], "max_iter_ratio": 0.0, "budget": 10 ** 9, "rounds": [], "errs": [], "failed_uids": [], "failed_flows": []}
         st["budget"] = BUDGET_FACTOR * (sum(len(p) for p in progs.values()) + 10)
         _R.st = st
         call = {"event": ev["type"], "out": [], "pe_exc": None, "budget_hit": None}
@@ -651,6 +677,7 @@ def run_impl(case):
         call.update({k: st[k] for k in ("slides", "moves", "ievents", "colang_errors", "rtc_exc", "max_iter_ratio")})
         # every flow INSTANCE in which a statement raised: what became of it by the end of this call
         call["errs"] = len(st["errs"])
+        call["failed_flows"] = sorted(set(st["failed_flows"]))
         call["err_types"] = sorted({e[3] for e in st["errs"]})
         call["unfailed"] = []
         if not (call["budget_hit"] or call["pe_exc"] or state is None):
@@ -1043,7 +1070,9 @@ def nontrivial(case, obs):
         return False
     if case["meta"].get("quick"):
         return True
-    return any(c["colang_errors"] or c["rtc_exc"] or c["budget_hit"] for c in obs["calls"]) or any(r["exc"] for r in obs["samples"])
+    if case["meta"]["kind"] == "abort" and any("faulty" in c.get("failed_flows", []) for c in obs["calls"]):
+        return True  # the `abort` statement was reached: the faulty flow failed without an exception
+    return any(c["colang_errors"] or c["rtc_exc"] or c["budget_hit"] or c.get("errs") for c in obs["calls"]) or any(r["exc"] for r in obs["samples"])
 
 
 def tags(case, obs):
